@@ -83,7 +83,7 @@ Definition PInv (p : pstore) : Prop :=
   let r := live p in let b := base r in let d := dk p in
   IxInv r /\
   tdirty r = false /\
-  (dirty b = false -> vec_on r = vec_disk r) /\
+  (dirty b = false -> vec_on r = vec_disk r || has_pemb (pattrs r)) /\
   (delta_nonempty (pending b) = false -> pattrs r = [] /\ temps p = []) /\
   lex r = lex_full (committed b) (attrs r) /\
   tix r = tix_full (committed b) /\
@@ -145,7 +145,7 @@ Proof.
   - unfold PInv, psync. cbn [live temps sk psk dk]. rewrite Ed. unfold persist_sync. rewrite Ed.
     rewrite (sync_delta _ e Ed) in *. cbn [base attrs pattrs lex tdirty vec vec_on vec_disk tix do_commit committed pending dirty].
     cbn [k_lex k_vec k_vec_on k_tix k_sk k_segs].
-    split; [exact HI'|]. split; [reflexivity|]. split; [reflexivity|]. split; [split; reflexivity|].
+    split; [exact HI'|]. split; [reflexivity|]. split; [intros _; cbn [has_pemb existsb]; rewrite orb_false_r; reflexivity|]. split; [split; reflexivity|].
     split; [reflexivity|]. split; [reflexivity|]. split; [repeat split|]. split; [discriminate|]. split; [constructor|].
     split; [reflexivity|]. split; intros H; rewrite H; reflexivity.
   - destruct (Hpa eq_refl) as [Hp Ht].
@@ -153,7 +153,7 @@ Proof.
     unfold PInv, psync. cbn [live temps sk psk dk]. rewrite Ed. unfold persist_sync. rewrite Ed, Htd.
     rewrite (sync_nodelta _ e Ed) in *. cbn [base attrs pattrs lex tdirty vec vec_on vec_disk tix do_commit committed pending dirty].
     cbn [k_lex k_vec k_vec_on k_tix k_sk k_segs]. rewrite HV, Hp, app_nil_r.
-    split; [rewrite Hp, app_nil_r in HI'; exact HI'|]. split; [reflexivity|]. split; [reflexivity|]. split; [split; [reflexivity|exact Ht]|].
+    split; [rewrite Hp, app_nil_r in HI'; exact HI'|]. split; [reflexivity|]. split; [intros _; cbn [has_pemb existsb]; rewrite orb_false_r; reflexivity|]. split; [split; [reflexivity|exact Ht]|].
     split; [exact Hlex|]. split; [exact Htix|]. split; [repeat split; auto|]. split; [exact Hseg|]. split; [exact Htmp|].
     split; [reflexivity|]. split; exact Hv1.
 Qed.
@@ -162,7 +162,7 @@ Qed.
 Lemma popen_live p :
   PInv p ->
   live (popen p) = mkR (base (live p)) (attrs (live p)) (pattrs (live p)) (lex (live p)) false
-                       (vec (live p)) (vec_disk (live p)) (vec_disk (live p)) (tix (live p)).
+                       (vec (live p)) (vec_disk (live p) || has_pemb (pattrs (live p))) (vec_disk (live p)) (tix (live p)).
 Proof.
   intros (HI & Htd & Hvd & Hpa & Hlex & Htix & (K1 & K2 & K3 & K4 & K5) & Hseg & Htmp & Hpsk & Hv1 & Hv2).
   unfold popen.
@@ -185,7 +185,7 @@ Proof.
   split.
   - destruct (pending (base (live p))); [destruct rb|]; unfold flush; cbn [k_lex k_vec k_vec_on k_tix k_sk];
       rewrite ?written_read; repeat split; auto.
-  - split; [|split; [constructor|split; [exact Hpsk|split; exact Hv2]]].
+  - split; [|split; [constructor|split; [exact Hpsk|split; [intros H; apply orb_false_iff in H as [H _]; exact (Hv2 H)|exact Hv2]]]].
     destruct (pending (base (live p))); [destruct rb|]; unfold flush; cbn [k_segs]; auto; discriminate.
 Qed.
 
@@ -345,7 +345,7 @@ Proof.
       pose proof (PInv_psync p extra HP) as HP1.
       pose proof (popen_live _ HP1) as HL. pose proof (PInv_popen _ HP1) as HP2.
       assert (HE : live (popen (psync p extra)) = sync (live p) extra).
-      { rewrite HL, psync_live. unfold sync. destruct (negb (delta_nonempty (pending (base (live p))))); reflexivity. }
+      { rewrite HL, psync_live. unfold sync. destruct (negb (delta_nonempty (pending (base (live p))))); cbn [base attrs pattrs lex tdirty vec vec_on vec_disk tix has_pemb existsb]; rewrite orb_false_r; reflexivity. }
       rewrite HE.
       destruct (pending (base (sync (live p) extra))) eqn:Ep2; cbn [fst snd].
       * split; [exact HP2|]. split; [exact HE|]. rewrite HE. reflexivity.
@@ -359,7 +359,7 @@ Proof.
         split; [exact Htd|]. split; [intros _; exact (Hvd eq_refl)|]. split; [exact Hpa|]. split; [exact Hlex|]. split; [exact Htix|]. split; [repeat split; auto|]. split; [exact Hseg|]. split; [exact Htmp|]. split; [exact Hpsk|]. split; [exact Hv1|exact Hv2]. }
       pose proof (popen_live _ HP1) as HL. pose proof (PInv_popen _ HP1) as HP2.
       assert (HE : live (popen (set_live p (set_base (live p) (bump (base (live p)) extra)))) = set_base (live p) (bump (base (live p)) extra)).
-      { rewrite HL. unfold set_live, set_base. cbn [live base attrs pattrs lex tdirty vec vec_on vec_disk tix]. rewrite Htd, (Hvd eq_refl). reflexivity. }
+      { rewrite HL. unfold set_live, set_base. cbn [live base attrs pattrs lex tdirty vec vec_on vec_disk tix]. rewrite Htd, <- (Hvd eq_refl). reflexivity. }
       rewrite HE.
       destruct (pending (base (set_base (live p) (bump (base (live p)) extra)))) eqn:Ep2; cbn [fst snd].
       * split; [exact HP2|]. split; [exact HE|]. rewrite HE. reflexivity.
@@ -368,7 +368,7 @@ Proof.
     cbn [pstep rop_of rstep fst snd].
     pose proof (popen_live _ HP) as HL. pose proof (PInv_popen _ HP) as HP2.
     assert (HE : live (popen p) = mkR (base (live p)) (attrs (live p)) (pattrs (live p)) (lex (live p)) (tdirty (live p))
-                                      (vec (live p)) (vec_disk (live p)) (vec_disk (live p)) (tix (live p))).
+                                      (vec (live p)) (vec_disk (live p) || has_pemb (pattrs (live p))) (vec_disk (live p)) (tix (live p))).
     { rewrite HL, Htd. reflexivity. }
     destruct (pending (base (live p))) eqn:Ep; cbn [fst snd].
     + split; [|unfold set_live; cbn [live]; rewrite HE; split; reflexivity].
@@ -431,8 +431,8 @@ Proof.
   pose proof (init_tantivy_agree (dk p) (committed (base (live p))) (attrs (live p)) (lex (live p)) K1 Hlex Hseg) as HA.
   unfold view_of, popen. subst p1. unfold set_live, set_base, bump. cbn [live dk base attrs committed temps sk].
   destruct (init_tantivy (dk p) (committed (base (live p))) (attrs (live p))) as [lx rb]. cbn [fst] in HA. subst lx.
-  cbn [live temps sk base committed lex vec vec_on tix]. unfold same_idx. cbn [v_frames v_lex v_vec v_vec_on v_tix v_sk].
-  rewrite Ht0, app_nil_r, K2, K3, K4, K5, (Hvd Hd). repeat split; reflexivity.
+  cbn [live temps sk base committed lex vec vec_on tix pattrs]. unfold same_idx. cbn [v_frames v_lex v_vec v_vec_on v_tix v_sk].
+  rewrite Ht0, app_nil_r, K2, K3, K4, K5, (Hvd Hd), Hp0. cbn [has_pemb existsb]. rewrite !orb_false_r. repeat split; reflexivity.
 Qed.
 
 (* read-only *)
@@ -445,35 +445,53 @@ Proof.
   assert (Hdn : delta_nonempty (pending (base (live p))) = false) by (rewrite Hq; reflexivity).
   destruct (Hpa Hdn) as [Hp0 Ht0].
   unfold handle_ro, handle_live, open_ro, view_of, same_idx. cbn [v_frames v_lex v_vec v_vec_on v_tix v_sk].
-  rewrite (init_tantivy_agree (dk p) _ _ (lex (live p)) K1 Hlex Hseg), Ht0, app_nil_r, K2, K3, K4, K5, (Hvd Hd).
+  rewrite (init_tantivy_agree (dk p) _ _ (lex (live p)) K1 Hlex Hseg), Ht0, app_nil_r, K2, K3, K4, K5, (Hvd Hd), Hp0. cbn [has_pemb existsb]. rewrite orb_false_r.
   repeat split; reflexivity.
 Qed.
 
-(* doctor{rebuild_lex_index, rebuild_time_index}: the rebuilt indexes are the committed ones *)
-Theorem doctor_same p lexf timef :
+(* doctor{rebuild_lex_index, rebuild_time_index, rebuild_vec_index}: the rebuilt indexes are the
+   committed ones; rebuild_vec_index additionally leaves vector search enabled *)
+Theorem doctor_sets p lexf timef vecf :
   PInv p -> Quiet p ->
-  same_idx (handle_doctor p lexf timef false) (handle_live p) /\
-  v_sk (handle_doctor p lexf timef false) = sk_read (sk_written (sk p)).
+  let h := handle_doctor p lexf timef vecf in
+  v_frames h = v_frames (handle_live p) /\ v_lex h = v_lex (handle_live p) /\ v_vec h = v_vec (handle_live p) /\
+  v_tix h = v_tix (handle_live p) /\ v_vec_on h = vecf || v_vec_on (handle_live p) /\
+  v_sk h = sk_read (sk_written (sk p)).
 Proof.
-  intros HP HQ. destruct (lexf || timef) eqn:Ef.
-  2:{ unfold handle_doctor, doctor. rewrite orb_false_r, Ef. apply readonly_same; assumption. }
+  intros HP HQ. destruct (lexf || timef || vecf) eqn:Ef.
+  2:{ apply orb_false_iff in Ef as [Elt Ev]. subst vecf. cbv zeta.
+      destruct (readonly_same p HP HQ) as [(A & B & C & D & E) F].
+      assert (EH : handle_doctor p lexf timef false = handle_ro p).
+      { unfold handle_doctor, handle_ro, doctor. rewrite orb_false_r, Elt. reflexivity. }
+      rewrite EH. cbn [orb]. tauto. }
   destruct HQ as [Hq Hd].
   destruct HP as (HI & Htd & Hvd & Hpa & Hlex & Htix & (K1 & K2 & K3 & K4 & K5) & Hseg & Htmp & Hpsk & Hv1 & Hv2).
   destruct HI as (HT & Hi1 & Hi2 & Hi3 & Hi4).
   assert (Hdn : delta_nonempty (pending (base (live p))) = false) by (rewrite Hq; reflexivity).
   destruct (Hpa Hdn) as [Hp0 Ht0].
-  unfold handle_doctor, doctor. rewrite orb_false_r, Ef. unfold open_ro, init_tantivy. cbn [k_segs k_lex k_vec k_vec_on k_tix k_sk fst orb].
-  unfold handle_live, view_of, same_idx. cbn [v_frames v_lex v_vec v_vec_on v_tix v_sk].
-  rewrite Ht0, app_nil_r, <- Hlex, <- Htix, K2, K3, K5, written_read, (Hvd Hd).
-  split; [|reflexivity]. split; [reflexivity|]. split; [reflexivity|]. split; [|split; reflexivity].
-  destruct (vec_disk (live p)) eqn:Evd.
+  cbv zeta. unfold handle_doctor, doctor. rewrite Ef. unfold open_ro, init_tantivy. cbn [k_segs k_lex k_vec k_vec_on k_tix k_sk fst].
+  unfold handle_live, view_of. cbn [v_frames v_lex v_vec v_vec_on v_tix v_sk].
+  rewrite Ht0, app_nil_r, <- Hlex, <- Htix, K2, K3, K5, written_read, (Hvd Hd), Hp0. cbn [has_pemb existsb]. rewrite orb_false_r.
+  split; [reflexivity|]. split; [reflexivity|]. split; [|repeat split; reflexivity].
+  destruct (vecf || vec_disk (live p)) eqn:Evd.
   - apply filter_all_true. intros ie Hie. apply Hi2. exact Hie.
-  - symmetry. apply Hv2. reflexivity.
+  - apply orb_false_iff in Evd as [_ Evd]. symmetry. apply Hv2. exact Evd.
 Qed.
 
-(* F-C14-1 inside this property: doctor{rebuild_vec_index} leaves an empty vector index *)
-Theorem doctor_vec_empties p lexf timef : v_vec (handle_doctor p lexf timef true) = [].
-Proof. unfold handle_doctor, doctor. rewrite orb_true_r. reflexivity. Qed.
+Theorem doctor_same p lexf timef vecf :
+  PInv p -> Quiet p -> (vecf = true -> vec_on (live p) = true) ->
+  same_idx (handle_doctor p lexf timef vecf) (handle_live p) /\
+  v_sk (handle_doctor p lexf timef vecf) = sk_read (sk_written (sk p)).
+Proof.
+  intros HP HQ Hv. destruct (doctor_sets p lexf timef vecf HP HQ) as (A & B & C & D & E & F).
+  split; [|exact F]. unfold same_idx. repeat split; try assumption.
+  rewrite E. cbn [handle_live view_of v_vec_on]. destruct vecf; [rewrite (Hv eq_refl)|]; reflexivity.
+Qed.
+
+(* historical (F-C14-1, repaired by 83a83e8): the earlier apply_pending_rebuilds emptied the vector index *)
+Lemma doctor_unfixed_vec_empties d frames al lexf timef :
+  k_vec (doctor_unfixed d frames al lexf timef true) = [].
+Proof. unfold doctor_unfixed. rewrite orb_true_r. reflexivity. Qed.
 
 (* ================= 6. equal handles give equal answers ================= *)
 Section AnswersProofs.
